@@ -10,6 +10,14 @@
 open Model
 open Vutil
 
+(* Blake2b-256 of the model, memoised (the extracted functions take the hash as a parameter) *)
+let hash_tbl : (string, byte list) Hashtbl.t = Hashtbl.create 4096
+let hash_memo (x : byte list) : byte list =
+  let k = string_of_bytes x in
+  match Hashtbl.find_opt hash_tbl k with
+  | Some h -> h
+  | None -> let h = hash256 x in Hashtbl.add hash_tbl k h; h
+
 let bytes_of_nib (s : string) : byte list =
   if s = "-" then [] else List.init (String.length s) (fun i -> byte_of_int (hexval s.[i]))
 
@@ -74,7 +82,7 @@ let check inp obs =
         tree := (if peek c = "nil" then (ignore (next c); None) else Some (all_dirty (parse_wnode c)));
         let tt = (match !tree with None -> None | Some w -> Some (erase w)) in
         (match tt with Some n -> if not (wf_node n) then model_bad := "tree-not-wf" :: !model_bad | None -> tag "empty-state");
-        let mroot = (match tt with None -> empty_root hash256 | Some n -> hash256 (encode hash256 n)) in
+        let mroot = (match tt with None -> empty_root hash_memo | Some n -> hash_memo (encode hash_memo n)) in
         if hex_of_bytes mroot <> !st_root then model_bad := "root" :: !model_bad;
         let ents = List.sort compare (List.map (fun (k, v) -> (hex_of_bytes k, hex_of_bytes v)) (entries tt)) in
         let truth = List.sort compare (Hashtbl.fold (fun k v acc -> (k, v) :: acc) state []) in
@@ -85,7 +93,7 @@ let check inp obs =
              if mbh then tag "hashed-value";
              if mbh && cs <> [] then tag "hashed-branch-value";
              List.iter (function None -> () | Some (WN (_, csv, _, _, ccs) as ch) ->
-                 if List.length (encode hash256 (erase ch)) < 32 then begin
+                 if List.length (encode hash_memo (erase ch)) < 32 then begin
                    tag "inlined-child";
                    if csv = Some [] && ccs = [] then tag "inlined-leaf-empty-value"
                  end; scan ch) cs in
@@ -99,11 +107,11 @@ let check inp obs =
         let absent = List.exists (fun k -> not (Hashtbl.mem state k)) keys in
         tag (if absent then "generate-with-absent-key" else "generate-present-keys");
         (* model: write the tree to a fresh database, load it back, generate *)
-        let d = write_dirty hash256 true [] !tree [] in
+        let d = write_dirty hash_memo true [] !tree [] in
         let mroot = bytes_of_hex !st_root in
-        let mgen = (match load hash256 st dfix (nat_of_int 200) d mroot with
+        let mgen = (match load hash_memo st dfix (nat_of_int 200) d mroot with
           | Ok lt ->
-            (match generate hash256 true true lt (List.map bytes_of_hex keys) with
+            (match generate hash_memo true true lt (List.map bytes_of_hex keys) with
              | Ok l -> "ok " ^ String.concat " " (List.map hex_of_bytes l)
              | Err k -> if int_of_nat k = 30 then "err:keynotfound" else "err:other"
              | Panic -> "panic" | OutOfFuel -> "hang")
@@ -132,7 +140,7 @@ let check inp obs =
         let r = next c in
         incr nq;
         let nb = List.map bytes_of_hex !nodes in
-        let m = vres_str (verify hash256 st dfix true true gx nb (bytes_of_hex !root) (bytes_of_hex k) (bytes_of_hex v)) in
+        let m = vres_str (verify hash_memo st dfix true true gx nb (bytes_of_hex !root) (bytes_of_hex k) (bytes_of_hex v)) in
         if m <> r then model_bad := (Printf.sprintf "verify(%s,%s)=%s model=%s" k v r m) :: !model_bad;
         let truth = if !root = !st_root then state else foreign in
         let present = Hashtbl.find_opt truth k in
